@@ -873,7 +873,7 @@ theorem roundTrip_ok (c : NContent) (hc : Canonical c) (h : refsResolve c = true
   unfold refsResolve at h
   rw [toSymbolicRepr_nil] at h
   simp only [Program.refsOk, Bool.and_eq_true] at h
-  obtain ⟨hnd, hrefs⟩ := h
+  obtain ⟨hcons, hnd, hrefs⟩ := h
   have g : Good c (genProgram (symOf c)).defs := ⟨hc, symOf_defs_ok c, hnd⟩
   have hall : ∀ call ∈ (genProgram (symOf c)).build, ∀ r ∈ call.refs, refOk (genProgram (symOf c)).defs r = true := by
     intro call hcall r hr
@@ -885,7 +885,7 @@ theorem roundTrip_ok (c : NContent) (hc : Canonical c) (h : refsResolve c = true
   unfold roundTrip
   rw [toSymbolicRepr_nil]
   have hg : genMxlpy (symOf c) = .ok (genProgram (symOf c)) := by
-    simp only [genMxlpy, hnd]; rfl
+    simp only [genMxlpy, hnd, hcons]; rfl
   simp only [bind, Except.bind, hg, runProgram, checkDefs_ok _ hnd, genMxlpy_build]
   generalize (genProgram (symOf c)).defs = D at g hall ⊢
   rw [runCalls_append, runCalls_append, runCalls_append, e0, e0', e0'', symOf_rxns]
